@@ -32,3 +32,6 @@ Proof.
   apply Bool.andb_true_iff in H as [H1 H2].
   repeat split; apply dterm_eqb_eq; assumption.
 Qed.
+
+Lemma bridge_info_from_disk : gen_info_read_from_disk_each_time = true.
+Proof. reflexivity. Qed.
